@@ -149,17 +149,31 @@ package metadata
 //@   requires u != nil
 //@   ensures result == u.Code
 
+// A fixed transport decodes only from exactly its canonical bytes (all of them: what was consumed is what
+// the value encodes to again), read from the reader in one call.
 //@ func (Bitswap).ReadFrom
 //@   property C11
 //@   requires r != nil
 //@   assumes constLens()
+//@   ghost rb := zero("[]byte")
+//@   at call Read: ghost rb := arg1
 //@   ensures result1 == nil ==> result0 == len(bitswapBytes)
+//@   ensures-local result1 == nil ==> count("call:Reader.Read") == 1
+//@   ensures result1 == nil ==> len(rb) == len(bitswapBytes)
+//@   ensures result1 == nil ==> content(rb) == content(bitswapBytes)
 
+// A fixed transport decodes only from exactly its canonical bytes (all of them: what was consumed is what
+// the value encodes to again), read from the reader in one call.
 //@ func (IpfsGatewayHttp).ReadFrom
 //@   property C11
 //@   requires r != nil
 //@   assumes constLens()
+//@   ghost rb := zero("[]byte")
+//@   at call Read: ghost rb := arg1
 //@   ensures result1 == nil ==> result0 == len(ipfsGatewayHttpBytes)
+//@   ensures-local result1 == nil ==> count("call:Reader.Read") == 1
+//@   ensures result1 == nil ==> len(rb) == len(ipfsGatewayHttpBytes)
+//@   ensures result1 == nil ==> content(rb) == content(ipfsGatewayHttpBytes)
 
 // Call protocol of the dag-cbor step: the decoder is handed the counting
 // reader itself (no read-ahead layer in between), so the count returned is the
